@@ -47,6 +47,16 @@ def tasks(tier, seed):
                        "T": 8 if vroom else (40 if tier == "quick" else 100), "R": list(configs.R3), "base": base,
                        "k": 1 if tier == "quick" else (1 if vroom else 2),
                        "max_exec": 3000 if tier == "quick" else 60000})
+    # long runs on boxes with non-dyadic end points (rounded midpoints; cells reached only after a hundred expansions)
+    T = 250 if tier == "quick" else 600
+    variants = [(l, a, p) for l, a, p in configs.all_algo_variants(T) if a not in ("VROOM",) and a not in configs.WRAPPERS]
+    variants += [("Zooming_nu5", "Zooming", dict(nu=5, rho=0.7)), ("Zooming_nu8", "Zooming", dict(nu=8, rho=0.5))]
+    for label, algo, params in variants:
+        for part, K, d in (("Binary", None, 1), ("DimensionBinary", None, 2), ("Kary", 4, 1), ("Binary", None, 2)):
+            cfg = configs.cfg(algo, part, K, configs.ND_BOXES[d], **params)
+            for base in ("twopeak", "bigpeak"):
+                ts.append({"kind": "algo", "label": "long/%s/%s%s/%dd/%s" % (label, part, K or "", d, base), "cfg": cfg, "mode": "dev", "T": T,
+                           "R": list(configs.R2), "base": base, "k": 0, "cost": 3})
     # StroquOOL: one budget per value of h_max (1..8), whole run on three reward scripts (k=0: one execution each)
     for n in (100, 185, 326, 482, 649, 826, 1011, 1203):
         for base in ("peak", "zero", "alt"):
